@@ -103,7 +103,7 @@ def cli_stream(ctx, rows):
             continue
         minor = int(m.group(1))
         key = (minor, "kind" in r[2])
-        if key in seen and ctx.tier != "thorough":
+        if key in seen and (ctx.tier != "thorough" or len(files) >= 150):
             continue
         seen.add(key)
         data = (0x0A0D0000 | MAGIC[minor]).to_bytes(4, "little") + bytes(12) + bytes.fromhex(hx[1:])
